@@ -109,6 +109,12 @@ pub async fn process_connection_events(
         attribute_nak(connections, seq_tracker, *nak, current_time_ms);
     }
 
+    // verif-model (Kani-only build, OFF by default): the relay send is socket I/O
+    // through tokio, which the model checker cannot compile; everything above it
+    // is the accounting logic under verification.
+    #[cfg(feature = "verif-model")]
+    let _ = (&last_client_addr, &local_listener);
+    #[cfg(not(feature = "verif-model"))]
     if let Some(client) = last_client_addr {
         for pkt in incoming.forward_to_client.iter() {
             let _ = local_listener.send_to(pkt, client).await;
